@@ -90,6 +90,15 @@ Proof.
   rewrite (combine_nth c (combine vl vr) t None (None, None) Hc).
   rewrite (combine_nth vl vr t None None) by congruence. reflexivity.
 Qed.
+
+(* the single-vector form: every defined timeslice is projected with the same pair, undefined ones stay undefined *)
+Theorem projected_single_tie (c : list (option E)) (l r : W) :
+  corr_projected_single E W sandwich c l r = Ok (map (option_map (fun m => sandwich l m r)) c).
+Proof.
+  unfold corr_projected_single.
+  rewrite (py_map_total _ (option_map (fun m => sandwich l m r))); [reflexivity|].
+  intros [m|] _; reflexivity.
+Qed.
 End Proj.
 
 (* with numbers: the model of Corr/Ops.v *)
@@ -99,5 +108,10 @@ Theorem projected_lists_is_model (c : corr) (vls vrs : list (option (list Q))) :
   = Ok (projected_l vls vrs c).
 Proof. intros Hl Hr. rewrite projected_lists_tie by assumption. reflexivity. Qed.
 
+Theorem projected_single_is_model (c : corr) (vl vr : list Q) :
+  corr_projected_single mat (list Q) (fun l m r => [[dotv l (map (fun row => dotv row r) m)]]) c vl vr = Ok (projected vl vr c).
+Proof. rewrite projected_single_tie. reflexivity. Qed.
+
 Print Assumptions projected_lists_tie.
+Print Assumptions projected_single_is_model.
 Print Assumptions projected_lists_is_model.
